@@ -52,8 +52,6 @@ var NewTimer = time.NewTimer
 
 const November = time.November
 
-var Now = time.Now
-
 const October = time.October
 
 var Parse = time.Parse
